@@ -1,5 +1,6 @@
 import Dhcp.Server
 import DhcpProofs.Lemmas.Server
+import DhcpProofs.Lemmas.V6Parse
 /-
   C14 — the servers dispatch each decodable datagram exactly once and survive
   bad ones.  Property theorems only; helper lemmas live in
@@ -7,9 +8,11 @@ import DhcpProofs.Lemmas.Server
 
   `serve4 = serve decode4 peer4` is the model of `(*server4.Server).Serve`
   with `decode4` = the model of `dhcpv4.FromBytes`; `serve6 dec6 = serve dec6
-  peer6` is the model of `(*server6.Server).Serve`, and every `…6` theorem
-  holds for EVERY decoder `dec6` (so also for the DHCPv6 codec model once it
-  exists).  Sequences of read results have any length.
+  peer6` is the model of `(*server6.Server).Serve`: every `…6` theorem holds
+  for EVERY decoder `dec6`, and the `…6_dec6` theorems instantiate them with
+  `serve6dec = serve6 decode6`, `decode6` = the model of `dhcpv6.FromBytes`
+  (`Dhcp.V6.dec6`, which never panics: `C14_no_panic6`).  Sequences of read
+  results have any length.
 
   `SocketPeers rs`: no read returns an interface holding a nil
   `*net.UDPAddr` (no socket does; server4 would dereference it — see
@@ -216,6 +219,78 @@ theorem C14_independent6 :
   simpa [serve6, serve] using this
 end
 
+/-! ## DHCPv6 instantiated with the codec model `Dhcp.V6.dec6` -/
+
+/-- `dhcpv6.FromBytes` (model) returns a message or an error, never `panic`, and
+the peer rule of server6 cannot panic either: the DHCPv6 loop never panics,
+whatever is read from whatever sender address. -/
+theorem C14_no_panic6 (rs : List ReadResult) :
+    (∀ b, V6.dec6 b ≠ .panic) ∧ (serve6dec rs).exit ≠ .panicked :=
+  ⟨V6.dec6_ne_panic, (serveFrom_exit decode6 peer6 0 rs (peer6_noPanic _ rs)).2.2⟩
+
+/-- **C14 (exactness, v6, `dec6`).** -/
+theorem C14_exact6_dec6 (rs : List ReadResult) :
+    (serve6dec rs).invocations =
+      ((rs.takeWhile ReadResult.isDatagram).zipIdx).filterMap (fun x =>
+        match x.1 with
+        | .datagram b p =>
+          (V6.dec6 (b.take readBufLen)).toOption.map (fun m => (⟨x.2, m, p⟩ : Invocation V6.Msg6))
+        | .readError => none) :=
+  C14_exact6 decode6 rs
+
+/-- **C14 (never for an undecodable datagram; message = its decoding; sender unchanged, v6, `dec6`).** -/
+theorem C14_never_undecodable6_dec6 (rs : List ReadResult) (v : Invocation V6.Msg6)
+    (hv : v ∈ (serve6dec rs).invocations) :
+    ∃ b, rs[v.idx]? = some (.datagram b v.peer) ∧ V6.dec6 (b.take readBufLen) = .ok v.msg := by
+  obtain ⟨b, h1, h2⟩ := C14_never_undecodable6 decode6 rs v hv
+  refine ⟨b, h1, ?_⟩
+  simp only [decode6] at h2
+  cases hd : V6.dec6 (b.take readBufLen) <;> simp_all [Res.toOption]
+
+/-- a datagram that `dec6` rejects is never dispatched -/
+theorem C14_undecodable_never_dispatched6_dec6 (rs : List ReadResult) (i : Nat) (b : Bytes) (p : Peer)
+    (hi : rs[i]? = some (.datagram b p)) (hd : V6.dec6 (b.take readBufLen) = .err) :
+    ∀ v ∈ (serve6dec rs).invocations, v.idx ≠ i := by
+  intro v hv e
+  obtain ⟨b', h1, h2⟩ := C14_never_undecodable6_dec6 rs v hv
+  rw [e, hi] at h1
+  cases h1
+  rw [hd] at h2
+  cases h2
+
+/-- **C14 (exactly once, v6, `dec6`).** -/
+theorem C14_exactly_once6_dec6 (rs : List ReadResult) (i : Nat) (b : Bytes) (p : Peer) (m : V6.Msg6)
+    (hi : rs[i]? = some (.datagram b p))
+    (hlive : i < (rs.takeWhile ReadResult.isDatagram).length)
+    (hd : V6.dec6 (b.take readBufLen) = .ok m) :
+    (serve6dec rs).invocations.filter (fun v => v.idx == i) = [⟨i, m, p⟩] :=
+  C14_exactly_once6 decode6 rs i b p m hi hlive (by simp [decode6, hd, Res.toOption])
+
+/-- **C14 (a malformed datagram does not stop the loop, v6, `dec6`).** -/
+theorem C14_malformed_continues6_dec6 (a c : List ReadResult) (b : Bytes) (p : Peer)
+    (hd : V6.dec6 (b.take readBufLen) = .err) :
+    (serve6dec (a ++ .datagram b p :: c)).calls = (serve6dec (a ++ c)).calls ∧
+      (serve6dec (a ++ .datagram b p :: c)).exit = (serve6dec (a ++ c)).exit :=
+  C14_malformed_continues6 decode6 a c b p (by simp [decode6, hd, Res.toOption])
+
+/-- **C14 (exit, v6, `dec6`).** -/
+theorem C14_exit6_dec6 (rs : List ReadResult) :
+    ((serve6dec rs).exit = .returned ↔ .readError ∈ rs) ∧
+      ((serve6dec rs).exit = .blocked ↔ .readError ∉ rs) :=
+  C14_exit6 decode6 rs
+
+theorem C14_exit_stops6_dec6 (a b : List ReadResult) :
+    serve6dec (a ++ .readError :: b) = serve6dec (a ++ [.readError]) :=
+  C14_exit_stops6 decode6 a b
+
+/-- **C14 (independence, v6, `dec6`).** -/
+theorem C14_independent6_dec6 :
+    ∃ f : ReadResult → Nat → Option (Invocation V6.Msg6),
+      ∀ (rs : List ReadResult) (i : Nat) (r : ReadResult),
+        rs[i]? = some r → i < (rs.takeWhile ReadResult.isDatagram).length →
+        (serve6dec rs).invocations.filter (fun v => v.idx == i) = (f r i).toList :=
+  C14_independent6 decode6
+
 /-! ## Non-vacuity -/
 
 /-- a minimal BOOTP header + cookie + End: accepted by the `FromBytes` model -/
@@ -253,5 +328,17 @@ example :
     o.invocations.map (fun v => (v.idx, v.msg, v.peer)) =
       [(0, [1, 0, 0, 1], .other 3), (2, [3, 0, 0, 2, 0], .udp none 546 [])] ∧ o.exit = .returned := by
   decide
+
+/-- DHCPv6 with the codec model: a SOLICIT with a client-id option (accepted by `dec6`)
+from a link-local sender, a 2-byte datagram (rejected), the SOLICIT again from a non-UDP
+sender, then Close: positions 0 and 2 are dispatched with their senders untouched. -/
+example :
+    let sol : Bytes := [1, 0xaa, 0xbb, 0xcc, 0, 1, 0, 10, 0, 3, 0, 1, 0, 0x11, 0x22, 0x33, 0x44, 0x55]
+    let ll : Peer := .udp (some ([0xfe, 0x80] ++ zeros 13 ++ [10])) 546 [101, 116, 104, 48]
+    let rs : List ReadResult := [.datagram sol ll, .datagram [1, 2] ll, .datagram sol (.other 9), .readError]
+    (decode6 (sol.take readBufLen)).isSome = true ∧ (decode6 (([1, 2] : Bytes).take readBufLen)).isNone = true ∧
+    (serve6dec rs).invocations.map (fun v => (v.idx, v.peer)) = [(0, ll), (2, .other 9)] ∧
+    (serve6dec rs).exit = .returned := by
+  refine ⟨by decide, by decide, by decide, by decide⟩
 
 end Dhcp.Server
